@@ -193,9 +193,6 @@ Proof.
     + apply IH; [assumption | simpl in HB; lia].
 Qed.
 
-Lemma eye_length n : length (eye n) = n.
-Proof. induction n; simpl; [reflexivity|]. now rewrite map_length, IHn. Qed.
-
 Lemma eye_rows n : Forall (fun r => (n <= length r)%nat) (eye n).
 Proof.
   induction n as [|n IH]; simpl; constructor.
@@ -208,9 +205,6 @@ Lemma vsub_length_eq a b : length a = length b -> length (vsub a b) = length a.
 Proof.
   revert b; induction a as [|x a IH]; intros [|y b] H; simpl in *; try discriminate; auto.
 Qed.
-
-Lemma vset_length a j x : length (vset a j x) = length a.
-Proof. revert j; induction a as [|y a IH]; intros [|j]; simpl; auto. Qed.
 
 (** ** the two theorems about [householder_at] *)
 
@@ -314,6 +308,47 @@ Proof.
   - rewrite vscale_vscale. now apply householder_at_scale.
   - rewrite vmul_vscale_r. now apply householder_at_scale.
   - rewrite matvec_vscale. now apply householder_at_scale.
+Qed.
+
+(** ** mixing matrix and space shifts built on ANY branch / pivot: orthogonal to D *)
+
+Lemma householder_at_rows j n D : length D = n -> length (householder_at j n D) = n.
+Proof.
+  intros H. unfold householder_at, cols_before, cols_from. rewrite mcat_cols_map, map_length, msub_length, eye_length.
+  unfold outer, vscale, vdivs. rewrite !map_length, vsub_length, map_length, vset_length.
+  unfold vzeros_like. rewrite map_length. lia.
+Qed.
+
+(** abstract version of [space_shifts_orthogonal]: any basis matrix B with |D| rows whose first |betas| columns are orthogonal to D *)
+Lemma space_shifts_orthogonal_any B D betas sources i :
+  length B = length D -> (0 < length D)%nat -> (forall c, (c < length betas)%nat -> dot (col c B) D = 0) ->
+  dot (nth i (space_shifts sources (mixing_matrix B betas)) []) D = 0.
+Proof.
+  intros HB Hn H. unfold space_shifts.
+  destruct (Nat.eq_dec (ncols betas) 0) as [E|E].
+  - unfold mixing_matrix, transpose. rewrite ncols_matmul by lia.
+    rewrite E. simpl seq. simpl map. unfold matmul. simpl ncols. simpl seq. simpl map.
+    destruct (lt_dec i (length sources)) as [Hi|Hi].
+    + rewrite (map_nth (fun _ : list R => @nil R) sources [] i). reflexivity.
+    + rewrite nth_overflow; [reflexivity | rewrite map_length; lia].
+  - apply matmul_rows_orthogonal.
+    + unfold mixing_matrix. rewrite ncols_transpose.
+      * rewrite matmul_length. lia.
+      * rewrite ncols_matmul by lia. lia.
+    + intros k. unfold mixing_matrix. now apply col_matmul_orthogonal.
+Qed.
+
+Theorem hh_at_mixing_space_shifts j n D betas sources k :
+  length D = n -> (j < n)%nat -> nth j D 0 <> 0 -> (S (length betas) <= n)%nat ->
+  dot (nth k (mixing_matrix (householder_at j n D) betas) []) D = 0 /\
+  dot (nth k (space_shifts sources (mixing_matrix (householder_at j n D) betas)) []) D = 0.
+Proof.
+  intros Hn Hj H0 Hb.
+  assert (Hc : forall c, (c < length betas)%nat -> dot (col c (householder_at j n D)) D = 0).
+  { intros c Hc. apply hh_at_orthogonal; auto. lia. }
+  split.
+  - unfold mixing_matrix. now apply col_matmul_orthogonal.
+  - apply space_shifts_orthogonal_any; auto; [rewrite householder_at_rows; auto | lia].
 Qed.
 
 (** ** lengths of the three directions under the guards of the code *)
@@ -440,4 +475,23 @@ Example ex_branches_hyp :
 Proof.
   unfold ortho_pre_2d, ortho_pre_0d, ortho_pre_1d, metric_dir_2d, metric_dir_0d, metric_dir_1d, inner_2d, matvec.
   simpl. repeat split; try lra; try lia; repeat constructor; lra.
+Qed.
+
+(** ** rows of the mixing matrix and individual space shifts, every branch and strip_col *)
+Theorem ortho_branches_mixing_space_shifts j d g G1 G2 betas sources k :
+  (S (length betas) <= length d)%nat ->
+  (ortho_pre_0d j d g -> nth j (metric_dir_0d g d) 0 <> 0 ->
+     inner_0d g (nth k (mixing_matrix (ortho_basis_0d j d g) betas) []) d = 0 /\
+     inner_0d g (nth k (space_shifts sources (mixing_matrix (ortho_basis_0d j d g) betas)) []) d = 0) /\
+  (ortho_pre_1d j d G1 -> nth j (metric_dir_1d G1 d) 0 <> 0 ->
+     inner_1d G1 (nth k (mixing_matrix (ortho_basis_1d j d G1) betas) []) d = 0 /\
+     inner_1d G1 (nth k (space_shifts sources (mixing_matrix (ortho_basis_1d j d G1) betas)) []) d = 0) /\
+  (ortho_pre_2d j d G2 -> nth j (metric_dir_2d G2 d) 0 <> 0 ->
+     inner_2d G2 (nth k (mixing_matrix (ortho_basis_2d j d G2) betas) []) d = 0 /\
+     inner_2d G2 (nth k (space_shifts sources (mixing_matrix (ortho_basis_2d j d G2) betas)) []) d = 0).
+Proof.
+  intros Hb. unfold inner_0d, inner_1d, inner_2d, ortho_basis_0d, ortho_basis_1d, ortho_basis_2d. split; [|split].
+  - intros (Hg & Hj) H0. apply hh_at_mixing_space_shifts; auto. apply vscale_length.
+  - intros (HG & HL & Hj) H0. apply hh_at_mixing_space_shifts; auto. now apply vmul_length.
+  - intros ((HL & HR) & Hj) H0. apply hh_at_mixing_space_shifts; auto. unfold metric_dir_2d. now rewrite matvec_length.
 Qed.
